@@ -1,5 +1,7 @@
-//! C17, thorough tier only: the long-input percentile rank harness at length 100 (does not finish
-//! within the quick budget; measured > 300 s).
+//! C17, thorough tier only: the long-input percentile rank harness at length 64.
+//! Measured: length 64 finishes in about 40 s; lengths 80 and 100 give no verdict within 1500 s /
+//! 3000 s (40 GB allowed) — `slice::sort` switches to its general merge strategy above 64 elements,
+//! which CBMC does not get through.
 #[kani::proof]
-#[kani::unwind(102)]
-pub fn percentile_rank_len100() { crate::c17::percentile_rank_long::<100>() }
+#[kani::unwind(66)]
+pub fn percentile_rank_len64() { crate::c17::percentile_rank_long::<64>() }
